@@ -263,7 +263,8 @@ def _scenarios(tier, seed):
         scen.append({"label": "random", "sample": spec, "alpha": alpha, "deg_step": int(rng.choice(DIVISORS)),
                      "deg_type": ["int", "float", "np"][int(rng.integers(3))]})
     # sample drawn by the contour itself
-    drawn = [(0.3, 5), (0.01, 6), (0.004, 10)] if tier == "quick" else [(0.3, 5), (0.01, 6), (0.004, 10), (1e-3, 3), (1e-4, 5), (0.07, 1)]
+    # 1.9e-4 -> n = int(100/alpha) = 526315: a large ODD number of points (a draw done in parts must not lose the remainder)
+    drawn = [(0.3, 5), (0.01, 6), (0.004, 10), (1.9e-4, 10)] if tier == "quick" else [(0.3, 5), (0.01, 6), (0.004, 10), (1.9e-4, 10), (1e-3, 3), (1e-4, 5), (0.07, 1), (1.3e-4, 20)]
     for j, (alpha, deg) in enumerate(drawn):
         scen.append({"label": "drawn", "sample": None, "model": list(A.FIXED_2D)[j % 4], "alpha": alpha, "deg_step": deg, "deg_type": "int",
                      "global_seed": A.sub_seed(seed, "drawn", j)})
